@@ -82,9 +82,10 @@ def gen_equiv(seed: int, profile: str):
             return None
         cid = r.choice(cands)
         e = {"col": [t, [n for n, c in cur.visible if c == cid][0]]}
+        nm = r.choice(["nulls_first", "nulls_last"])
         if r.random() < 0.75:
-            e = g.fn("descending", e)
-        return g.fn(r.choice(["nulls_first", "nulls_last"]), e)
+            return g.fn(nm, g.fn("descending", e)) if r.random() < 0.5 else g.fn("descending", g.fn(nm, e))
+        return g.fn(nm, e)
 
     def harden(e):
         hk = hard_key()
@@ -261,6 +262,9 @@ def gen_equiv(seed: int, profile: str):
             other = g.cols_of(cur, cls, hidden_ok=False)
             oc = r.choice(other)
             ks[-1] = {"col": [t, [n for n, c in cur.visible if c == oc][0]]}
+        if r.random() < 0.3:
+            # a null among the values: `x == None` is null, so a row without a match gives null, not false
+            ks.insert(r.randint(1, len(ks)), {"lit": None})
         isin = g.fn("is_in", x, *ks)
         chain = g.fn("equal", x, ks[0])
         for k in ks[1:]:
